@@ -9,13 +9,15 @@
    way_apply / rel_apply : ApplyUpdatesUpTo     spec_node / spec_member : per-child ground truth
    AOk children pending | AErr index half-updated-children updates | APanic (negative index). *)
 From Coq Require Import ZArith List Bool Sorted Permutation Lia.
-From Verif Require Import C15.Model C15.Spec C15.Proofs.
+From Verif Require Import C15.Model C15.Spec C15.Proofs C15.GenOk.
+From VerifGen Require Import GenUpdates.
 Import ListNotations.
 Open Scope Z_scope.
 
 (* 1. exactness.  On success every child i is the original child overwritten by the LAST stored
       update with index i and timestamp <= t (version, changeset, lat, lon; for relation members
-      the orientation is negated once per such update carrying `reverse`; id / type / ref / role
+      the orientation is negated once per such update carrying `reverse` (in int8 arithmetic,
+      [flipped], see C15_orientation_flip); id / type / ref / role
       kept), every other child is unchanged (spec_* is the identity when nothing matches), and
       the pending list is exactly the later updates in their original order. *)
 Theorem C15_apply_exact_way : forall t ns us ns' p,
@@ -223,6 +225,49 @@ Proof.
     [exact (sorted_ts_keys_unique l1 l2 Hp H1 H2)|exact (sorted_index_keys_unique l1 l2 Hp H1 H2)].
 Qed.
 Print Assumptions C15_sorted_keys_unique.
+
+(* 7. tie by translation: the bodies of updatesSortTS.Less, updatesSortIndex.Less, Updates.UpTo,
+      Way.applyUpdate and Relation.applyUpdate, regenerated from /repo's source on every run
+      (VerifGen.GenUpdates), are the model's functions; and one non-skipped iteration of the
+      ApplyUpdatesUpTo loop is exactly a call of that applyUpdate. *)
+Theorem C15_generated_code_is_model :
+  (forall a b, gen_less_ts a b = less_ts a b) /\
+  (forall a b, gen_less_index a b = less_index a b) /\
+  (forall us t, gen_up_to us t = up_to t us) /\
+  (forall ns u, gen_way_apply_update ns u = apply_update upd_node ns u) /\
+  (forall ms u, gen_rel_apply_update ms u = apply_update upd_member ms u).
+Proof.
+  split; [exact gen_less_ts_ok|]. split; [exact gen_less_index_ok|]. split; [exact gen_up_to_ok|].
+  split; [exact gen_way_apply_update_ok|exact gen_rel_apply_update_ok].
+Qed.
+Print Assumptions C15_generated_code_is_model.
+
+Theorem C15_loop_iteration_is_generated_apply_update :
+  (forall t u r ns pend,
+     apply_loop upd_node t (u :: r) ns pend =
+     if t <? u_ts u then apply_loop upd_node t r ns (pend ++ [u])
+     else match gen_way_apply_update ns u with
+          | AU_Err i => LErr i ns
+          | AU_Panic _ => LPanic
+          | AU_Ok ns' => apply_loop upd_node t r ns' pend
+          end) /\
+  (forall t u r ms pend,
+     apply_loop upd_member t (u :: r) ms pend =
+     if t <? u_ts u then apply_loop upd_member t r ms (pend ++ [u])
+     else match gen_rel_apply_update ms u with
+          | AU_Err i => LErr i ms
+          | AU_Panic _ => LPanic
+          | AU_Ok ms' => apply_loop upd_member t r ms' pend
+          end).
+Proof. split; [exact way_apply_loop_gen|exact rel_apply_loop_gen]. Qed.
+Print Assumptions C15_loop_iteration_is_generated_apply_update.
+
+(* orb.Orientation is an int8 and the flip is computed with wrap-around ([flipped]); on every
+   orientation except -128 this is plain negation per applied reverse *)
+Theorem C15_orientation_flip : forall o k,
+  -127 <= o <= 127 -> flipped o k = if Nat.even k then o else - o.
+Proof. exact flipped_small. Qed.
+Print Assumptions C15_orientation_flip.
 
 (* ---------- non-vacuity ---------- *)
 Definition ex_nodes := [mkNode 1 1 7 1 1; mkNode 2 1 7 2 2; mkNode 3 2 8 3 3].
